@@ -73,7 +73,9 @@ def _get_by_pos(r, lf):
 def cfgs(tier):
     cs = [l3.Cfg("base"),
           l3.Cfg("all", num=True, bool=True, ips=True, ns=True, replacement="Xx"),
-          l3.Cfg("eagerenc", eager=True, encrypt=True, num=True, bool=True)]
+          l3.Cfg("eagerenc", eager=True, encrypt=True, num=True, bool=True),
+          # replacement texts that are a prefix of the literals, and the empty one (a literal must vanish whatever the replacement is)
+          l3.Cfg("rz", replacement="Zq", num=True), l3.Cfg("rempty", replacement="", bool=True)]
     if tier == "thorough":
         cs += [l3.Cfg("eager", eager=True, num=True, bool=True), l3.Cfg("enc", encrypt=True, bool=True, ips=True)]
     if tier == "thorough":
